@@ -156,16 +156,16 @@ let has_copy (sc : scase) : bool =
   List.exists (fun (_, r) -> match r with
     | POk ss -> List.exists (fun s -> List.exists (function HCopyIn _ | HCopyRead -> true | _ -> false) s.s_prog) ss
     | PErr _ -> false) sc.sc_parse
-(* a client stream delivered in any segmentation (also all in one write) whose messages are all complete (within the
-   limit, or oversized and present in full) and that sends no Terminate: every Sync within the limit is answered by
-   its ReadyForQuery — a rejected message is skipped in exactly its declared length and what follows it is served *)
+(* a client stream delivered in any segmentation (also all in one write) that consists of Sync and Flush messages
+   within the limit and of rejected messages (oversized and present in full, or with a length below the minimum):
+   every Sync is answered by its ReadyForQuery — a rejected message is skipped in exactly its declared length and what follows it is served *)
 let syncs_answered (sc : scase) (il : ev list) : bool =
   if sc.sc_auth <> None || sc.sc_tls then true else
   match untyped sc.sc_limit sc.sc_raw with
   | Some (_, rest) ->
       let (fs, _) = frames sc.sc_limit rest in
       let tb t = int_of_byte t in
-      let complete = List.for_all (function FMsg (t, _) -> tb t <> 88 | FOver (_, _, None) | FBad _ -> true | _ -> false) fs in
+      let complete = List.for_all (function FMsg (t, _) -> tb t = 83 || tb t = 72 | FOver (_, _, None) | FBad _ -> true | _ -> false) fs in
       let syncs = List.length (List.filter (function FMsg (t, _) -> tb t = 83 | _ -> false) fs) in
       let readies = List.length (List.filter (function Out (BReady _) -> true | _ -> false) il) in
       (not complete) || readies >= 1 + syncs
